@@ -44,7 +44,10 @@ def build_universe(ctx: Ctx, rng: random.Random) -> Tuple[List[dict], List[Any]]
         # (type code, rdata) -- the first is the base, the others differ in one field
         'A': [(1, (b'\x0a\x00\x00\x01', None)), (1, (b'\x0a\x00\x00\x02', None)),
               (28, (b'\xfe\x80' + b'\0' * 13 + b'\x01', None)), (28, (b'\xfe\x80' + b'\0' * 13 + b'\x01', 3)),
-              (28, (b'\xfe\x80' + b'\0' * 13 + b'\x01', 4)), (28, (b'\x0a\x00\x00\x01', None))],
+              (28, (b'\xfe\x80' + b'\0' * 13 + b'\x01', 4)), (28, (b'\x0a\x00\x00\x01', None)),
+              # scope 0 (what an IPv6 socket reports for a non-link-local source) is not "no scope"
+              (28, (b'\xfe\x80' + b'\0' * 13 + b'\x01', 0)), (28, (b'\xfd\x00' + b'\0' * 13 + b'\x02', 0)),
+              (28, (b'\xfd\x00' + b'\0' * 13 + b'\x02', None))],
         'PTR': [(12, (targets[0],)), (12, (targets[1],)), (12, (targets[2],)), (5, (targets[0],))],
         'TXT': [(16, (b'\x03a=b',)), (16, (b'\x03A=b',)), (16, (b'',)), (12, (b'\x03a=b',))],
         'SRV': [(33, (0, 0, 80, targets[0])), (33, (1, 0, 80, targets[0])), (33, (0, 1, 80, targets[0])),
